@@ -239,3 +239,146 @@ def targets():
                    note='Inv over the op list under A1-A4w, wave_eval_cpu by the contract of _wave_eval (Q1, Q2, Q3, Q5)'),
             Target('wave_sim', 'WaveSim.c_prop', [cprop_config('none'), cprop_config('k')], prims=cprop_prims, instantiate='fallback',
                    note='Inv over the levels, level_eval_cpu by its composition contract')]
+
+
+# ------------------------------------------------------------------------------------------------- WaveSim.c_to_s (C13)
+from pyvc.models_obj import IntArr  # noqa: E402
+
+CAP = [z3.Function(f'CAP{r}', I, I, I, I) for r in range(8)]      # result r of wave_capture_cpu(c, c_loc, c_len, vector, ..) on the current memory
+S3 = z3.ArraySort(I, z3.ArraySort(I, z3.ArraySort(I, I)))
+
+
+class GatherArr(Model):
+    """an integer array given by an element function (result of ``a + k`` or of the gather ``a[b]``)"""
+
+    def __init__(self, length, elem, bound=None):
+        self.length, self.elem, self.bound = length, elem, bound
+
+    def m_len(self, ex, st, node):
+        return self.length
+
+    def m_iter(self, ex, st, node):
+        from pyvc.engine import SymIter
+
+        def item(ex_, st_, k):
+            if self.bound is not None:
+                ex_.prove(st_, 'index-in-bounds:gather', self.bound(to_int(k)), node)
+            return SInt(self.elem(to_int(k)))
+        return SymIter(self.length, item)
+
+
+class LocArr(IntArr):
+    """IntArr that supports ``arr + scalar`` / ``scalar + arr`` and the gather ``arr[index array]``"""
+
+    def m_binop(self, ex, st, op, a, b, node):
+        import ast as _ast
+        other = b if a is self else a
+        if op is _ast.Add and not isinstance(other, Model):
+            arr, k = st.heap[self.name], to_int(other)
+            return GatherArr(self.length, lambda j: z3.Select(arr, j) + k)
+        raise NotInSubset('array arithmetic')
+
+    def m_getitem(self, ex, st, idx, node):
+        if isinstance(idx, IntArr):
+            ia = st.heap[idx.name]
+            idx = GatherArr(idx.length, lambda j: z3.Select(ia, j))
+        if isinstance(idx, GatherArr):
+            arr, n = st.heap[self.name], to_int(self.length)
+            return GatherArr(idx.length, lambda j: z3.Select(arr, idx.elem(j)), bound=lambda j: z3.And(idx.elem(j) >= 0, idx.elem(j) < n))
+        return super().m_getitem(ex, st, idx, node)
+
+
+class SArr3(Model):
+    """self.s : heap['s'][row][s_loc][lane]; only the slice assignment s[3:, s_loc, vector] = (8 values) is modelled"""
+
+    def m_setitem(self, ex, st, idx, val, node):
+        if not (isinstance(idx, tuple) and len(idx) == 3 and isinstance(idx[0], slice) and idx[0].start == 3 and idx[0].stop is None and idx[0].step is None):
+            raise NotInSubset('assignment into s other than s[3:, s_loc, vector]')
+        if not (isinstance(val, tuple) and len(val) == 8):
+            ex.prove(st, 'no-exception:the capture result has 8 entries (rows 3..10 of s)', False, node)
+            return
+        sl, v = to_int(idx[1]), to_int(idx[2])
+        g = ex.g
+        ex.prove(st, 'index-in-bounds:s[3:, s_loc, vector]', z3.And(sl >= 0, sl < g['s_len'], v >= 0, v < g['sims']), node)
+        S = st.heap['s']
+        for r, x in enumerate(val):
+            S = z3.Store(S, 3 + r, z3.Store(S[3 + r], sl, z3.Store(S[3 + r][sl], v, to_int(x))))
+        st.heap['s'] = S
+
+
+def c_to_s_config():
+    def setup(ex):
+        st = State()
+        s_len, sims, n_out, nlocs, ppo = (ex.fv(n, 'int') for n in ('s_len', 'sims', 'n_poppo', 'c_locs_len', 'ppo_offset'))
+        st.assume(SBool(z3.And(s_len.e >= 0, sims.e >= 0, n_out.e >= 0, ppo.e >= 0, ppo.e + s_len.e <= nlocs.e)))
+        def loc_arr(name, length):
+            IntArr.new(ex, st, name, length=length)
+            return LocArr(name, length, False)
+        ps, cl, cc = loc_arr('poppo_s_locs', n_out), loc_arr('c_locs', nlocs), loc_arr('c_caps', nlocs)
+        j = z3.Int('j')
+        st.assume(SBool(z3.ForAll([j], z3.Implies(z3.And(0 <= j, j < n_out.e), z3.And(st.heap['poppo_s_locs'][j] >= 0, st.heap['poppo_s_locs'][j] < s_len.e)))))
+        st.heap['s'] = z3.Const('s0', S3)
+        selfo = SObj.new(st, 'self', poppo_s_locs=ps, c_locs=cl, c_caps=cc, ppo_offset=ppo, sims=sims, s=SArr3(), c=Opaque('c'))
+        ex.readonly.update({('self', f) for f in ('poppo_s_locs', 'c_locs', 'c_caps', 'ppo_offset', 'sims', 's', 'c')})
+        st.env.update(self=selfo, time=Opaque('time'), sd=Opaque('sd'), seed=Opaque('seed'))
+        ex.g = dict(s_len=s_len.e, sims=sims.e, n=n_out.e, ppo=ppo.e, PS=st.heap['poppo_s_locs'], CL=st.heap['c_locs'], CC=st.heap['c_caps'], s0=st.heap['s'])
+        return st
+
+    def want(g, r, sl, v):
+        return CAP[r](g['CL'][g['ppo'] + sl], g['CC'][g['ppo'] + sl], v)
+
+    def outer_inv(ex, st):
+        g = ex.g
+        k = to_int(st.env['__k0'])
+        S = st.heap['s']
+        j, v, r, x = z3.Ints('j v r x')
+        for rr in range(8):
+            yield f'row {3 + rr} of every port passed so far holds result {rr} of the capture of its own waveform, in every lane', \
+                SBool(z3.ForAll([j, v], z3.Implies(z3.And(0 <= j, j < k, 0 <= v, v < g['sims']), S[3 + rr][g['PS'][j]][v] == want(g, rr, g['PS'][j], v))))
+        yield 'frame: rows 0..2 (the assignments) are untouched', SBool(z3.And(S[0] == g['s0'][0], S[1] == g['s0'][1], S[2] == g['s0'][2]))
+
+    def inner_inv(ex, st):
+        g = ex.g
+        k, vv = to_int(st.env['__k0']), to_int(st.env['__k1'])
+        S = st.heap['s']
+        j, v = z3.Ints('j v')
+        cur = g['PS'][k]
+        for rr in range(8):
+            yield f'row {3 + rr}: ports passed so far in every lane, the current port in the lanes passed so far', \
+                SBool(z3.And(z3.ForAll([j, v], z3.Implies(z3.And(0 <= j, j < k, 0 <= v, v < g['sims']), S[3 + rr][g['PS'][j]][v] == want(g, rr, g['PS'][j], v))),
+                             z3.ForAll([v], z3.Implies(z3.And(0 <= v, v < vv), S[3 + rr][cur][v] == want(g, rr, cur, v)))))
+        yield 'frame: rows 0..2 (the assignments) are untouched', SBool(z3.And(S[0] == g['s0'][0], S[1] == g['s0'][1], S[2] == g['s0'][2]))
+        yield 'outer index in range', SBool(z3.And(0 <= k, k < g['n']))
+
+    def post(ex, st):
+        g = ex.g
+        S = st.heap['s']
+        j, v = z3.Ints('j v')
+        for rr in range(8):
+            yield f's[{3 + rr}] of every output / state element holds result {rr} of the capture of its own output-slot waveform, in every lane', \
+                SBool(z3.ForAll([j, v], z3.Implies(z3.And(0 <= j, j < g['n'], 0 <= v, v < g['sims']), S[3 + rr][g['PS'][j]][v] == want(g, rr, g['PS'][j], v))))
+        yield 'frame: rows 0..2 (the assignments) are untouched', SBool(z3.And(S[0] == g['s0'][0], S[1] == g['s0'][1], S[2] == g['s0'][2]))
+        ex.prove(st, 'mustfail:s is unchanged', SBool(S == g['s0']), ex.fn, expect='refuted')
+
+    contract = {'post': post, 'loop_match': {0: ('zip(', 0), 1: ('range(', 0)},
+                'loops': {0: {'inv': outer_inv, 'modifies': ['s'], 'kinds': {}}, 1: {'inv': inner_inv, 'modifies': ['s'], 'kinds': {}}}}
+    return Config('any interface, any lanes', contract, setup, None)
+
+
+def c_to_s_prims(globs):
+    def capture_model(ex, st, args, kwargs, node):
+        """wave_capture_cpu by contract: a function of the memory region [c_loc, c_loc+c_len) of lane ``vector`` and of time / sd / seed (which are
+        passed through unchanged); it does not write"""
+        if len(args) != 4 or not isinstance(args[0], Opaque) or args[0].name != 'c':
+            ex.prove(st, 'call:wave_capture_cpu(self.c, c_loc, c_len, vector, ...)', False, node)
+            return tuple(SInt(z3.IntVal(0)) for _ in range(8))
+        ok = all(isinstance(kwargs.get(k), Opaque) and kwargs[k].name == k for k in ('time', 'sd', 'seed')) and len(kwargs) == 3
+        ex.prove(st, 'call:time, sd and seed are passed through to the capture', ok, node)
+        loc, ln, v = (to_int(a) for a in args[1:])
+        return tuple(SInt(CAP[r](loc, ln, v)) for r in range(8))
+    return {globs['wave_capture_cpu']: capture_model}
+
+
+def targets_c13():
+    return [Target('wave_sim', 'WaveSim.c_to_s', [c_to_s_config()], prims=c_to_s_prims, instantiate='fallback',
+                   note='every port row of s gets the capture of its own output-slot waveform; wave_capture_cpu by contract')]
